@@ -231,6 +231,8 @@ pub fn satisfies(exp: &Exp, got: &Tree, model: &mut Model, argv: &Argv) -> Resul
         },
         Exp::Float(f) => match got {
             Tree::Bulk(Some(b)) => match crate::model::s2d(b) {
+                // a sorted-set score is a double the client sent (or an f64 sum of such): it must read back exactly
+                Some(g) if String::from_utf8_lossy(&argv[0]).to_ascii_uppercase().starts_with('Z') && g != *f => Err("score-not-exact".into()),
                 Some(g) if float_close(*f, g) => {
                     // the model stores the implementation's rendering (INCRBYFLOAT)
                     if String::from_utf8_lossy(&argv[0]).eq_ignore_ascii_case("INCRBYFLOAT") {
@@ -248,7 +250,7 @@ pub fn satisfies(exp: &Exp, got: &Tree, model: &mut Model, argv: &Argv) -> Resul
             Tree::Arr(Some(g)) if g.len() == 2 * v.len() => {
                 for (i, (m, s)) in v.iter().enumerate() {
                     let ok_m = matches!(&g[2 * i], Tree::Bulk(Some(b)) if b == m);
-                    let ok_s = matches!(&g[2 * i + 1], Tree::Bulk(Some(b)) if crate::model::s2d(b).map(|x| float_close(x, *s)).unwrap_or(false));
+                    let ok_s = matches!(&g[2 * i + 1], Tree::Bulk(Some(b)) if crate::model::s2d(b).map(|x| x == *s).unwrap_or(false));
                     if !ok_m {
                         return Err("member-order".into());
                     }
